@@ -1093,7 +1093,7 @@ func runC20(c *Ctx) {
 		}
 		return
 	}
-	n := c.N(1200, 40000)
+	n := c.N(3000, 80000)
 	d := runStream("portfolio", 0, n)
 	d += runStream("external", 0, n/3)
 	d += runStream("noflow", 0, n/3)
